@@ -12,6 +12,12 @@ def find(ctx, oblig, diag):
     res = ctx["replay_tool"](["sigv2-append"])
     if res.get("violates"):
         res["source"] = "sub-resource parameters appended after signing"; return res
+    # presigned URLs whose Expires lies far in the future (beyond 2^31 and 2^32 seconds) are still valid
+    if "expires" in oblig or "undecided" in oblig or "presigned" in oblig:
+        for e in ("2147483648", "4294967295", "4294967296", "9999999999", "253402300799"):
+            r = ctx["replay_tool"](["sigv2-presigned", "/bkt/key", e])
+            if r.get("violates"):
+                r["source"] = "presigned URL by the reference V2 signer with a far-future Expires"; return r
     for q in cases:
         path = "/bkt" if q and q[0] in ("uploads", "location", "logging", "lifecycle", "versioning", "versions", "website", "policy", "notification", "requestPayment", "delete") else "/bkt/key"
         res = ctx["replay_tool"](["sigv2", path] + q)
